@@ -787,6 +787,16 @@ class SecureHomeKitConnection(HomeKitConnection):
 
         await super()._connect_once()
 
+        try:
+            await self._secure_session_setup()
+        except BaseException:
+            # Never leave a half set up connection behind: the next attempt
+            # would overwrite the references and leak the open socket.
+            self._drop_transport()
+            raise
+
+    async def _secure_session_setup(self) -> None:
+        """Negotiate the secure session on the freshly opened transport."""
         state_machine = get_session_keys(self.pairing_data)
 
         request, expected = state_machine.send(None)
